@@ -245,4 +245,30 @@ func init() {
 		covers := []string{"C01.acyclic-graph", "C01.launch", "C03.pass-reaches-the-pause", "C03.schedule-returns", "C01.worker-checked", "C03.whole-run-returns", "C04.all-eligible-started-in-one-pass"}
 		register(&PropSpec{ID: id, Jobs: schedJobs, Harness: []string{"C01"}, Covers: covers, Bounds: schedBounds, Outside: schedOutside, Assumptions: schedAssume, Replay: schedReplay})
 	}
+
+	c12jobs := func(tier string) []*Job {
+		js := []*Job{
+			{Pkg: pkgRunner, Func: "VerifC12Cancel", Args: []int64{0, 1, 9}, Timeout: 10 * time.Minute},
+			{Pkg: pkgRunner, Func: "VerifC12Cancel", Args: []int64{0, 2, 9}, Timeout: 10 * time.Minute},
+			{Pkg: pkgRunner, Func: "VerifC12Cancel", Args: []int64{1, 1, 9}, Timeout: 10 * time.Minute},
+			{Pkg: pkgRunner, Func: "VerifC12Cancel", Args: []int64{1, 2, 9}, Timeout: 10 * time.Minute},
+			{Pkg: pkgRunner, Func: "VerifC12Cancel", Args: []int64{2, 1, 3}, Timeout: 30 * time.Minute, MaxSteps: 2000000000},
+			{Pkg: pkgRunner, Func: "VerifC12Cancel", Args: []int64{2, 2, 2}, Timeout: 30 * time.Minute, MaxSteps: 2000000000},
+			{Pkg: pkgRunner, Func: "VerifC12Cancel", Args: []int64{3, 1, 1}, Timeout: 30 * time.Minute, MaxSteps: 2000000000},
+		}
+		if tier == "thorough" {
+			js = append(js, &Job{Pkg: pkgRunner, Func: "VerifC12Cancel", Args: []int64{2, 1, 4}, Timeout: 60 * time.Minute, MaxSteps: 20000000000},
+				&Job{Pkg: pkgRunner, Func: "VerifC12Cancel", Args: []int64{3, 1, 2}, Timeout: 60 * time.Minute, MaxSteps: 20000000000})
+		}
+		return js
+	}
+	register(&PropSpec{ID: "C12", Jobs: c12jobs,
+		Covers: []string{"C12.all-threads-returned", "C12.a-command-was-interrupted"},
+		Bounds: map[string]interface{}{
+			"quick":    "0, 1 (preemption-unbounded), 2 (preemption bound 3) and 3 (bound 1) concurrent TaskRunner.Run calls (1-2 commands, one with a before hook) + one thread calling Cancel once or twice; every interleaving at visible operations (RWMutex, channel close/receive, context cancel, command start/finish); command outcomes symbolic",
+			"thorough": "2 runs with preemption bound 4, 3 runs with bound 2",
+		},
+		Outside:     []string{"that the interpreter stops a running command when its context is cancelled (mvdan DefaultExecHandler + the OS): assumed by the executor stub", "'within bounded time' is checked as absence of deadlock/livelock", "cancellation through the Scheduler (stage-condition error, Scheduler.Cancel): not yet a separate harness", "more than 3 concurrent runs"},
+		Assumptions: []string{"stub: Execute = start, yield, then the context's error if cancelled meanwhile else a symbolic outcome; a call made with an already-cancelled context starts nothing", "thread mode: sequential consistency at visible operations, data-race freedom of non-atomic fields between them", "engine intrinsics for sync.RWMutex, channels, context"},
+		Replay:      map[string]*ReplaySpec{"*": {PkgDir: "pkg/runner", File: "C12_replay_test.go", Test: "TestVerifReplayC12"}}})
 }
